@@ -7,7 +7,9 @@
  *
  *   X snap recent=<t> exit=<0|1> c0=<alive>,<commpending>,<used>,<conc>,<passopen>,<pqmin|-> c1=... jobs=<one digit per slot: refs|-> \
  *          pqfail=<dt|-> pqdone=<dt|-> trig=<0|1> tready=<0|1> tododir=<0|1> next=<t> fc=<0|1> ct=<t> timeout=<tv_sec|-1> rfds=<list|-> wfds=<list|-> \
- *          q0=<dt,dt,..|-> q1=<..> qfail=<..> qdone=<..> tusec=<tv_usec> simnow=<the simulator's clock> todo=<entries in queue/todo>
+ *          q0=<dt,dt,..|-> q1=<..> qfail=<..> qdone=<..> tusec=<tv_usec> simnow=<the simulator's clock> todo=<entries in queue/todo> \
+ *          nfds=<first argument of select> fdout=<chanfdout[0]>,<chanfdout[1]> fdin=<chanfdin[0]>,<chanfdin[1]> tfd=<trigger descriptor|-1> \
+ *          rset=<every fd in rfds, 0..FD_SETSIZE-1, by number|-> wset=<same for wfds>
  *
  * <pqmin>, pqfail=, pqdone= are what the CODE reads (prioq_min: the ROOT p[0] of the heap array).  q0= q1= qfail= qdone= are the due times of
  * ALL entries of pqchan[0], pqchan[1], pqfail, pqdone in array order: the driver's oracle takes "the earliest due event" to be the minimum over
@@ -87,6 +89,17 @@ static void c16_snapshot(simproc *p, int nfds, fd_set *r, fd_set *w, struct time
   n = c16_fmt_all(b, n, sizeof b - 2, "qfail", &pqfail); n = c16_fmt_all(b, n, sizeof b - 2, "qdone", &pqdone);
   int ntodo = 0; for (int i = 0; i < W.ndent; i++) if (W.dent[i].ino >= 0 && strstr(W.dent[i].path, "/queue/todo/")) ntodo++;
   if (n + 120 < sizeof b) n += snprintf(b + n, sizeof b - n, " tusec=%ld simnow=%ld todo=%d", tv ? (long)tv->tv_usec : 0L, (long)W.clock, ntodo);
+  /* numeric side (Nq.SelFds): nfds as passed, the descriptor numbers, and EVERY member of the two sets up to FD_SETSIZE -
+   * also those at or above nfds, which select() does not examine */
+  if (n + 400 < sizeof b) {
+    n += snprintf(b + n, sizeof b - n, " nfds=%d fdout=%d,%d fdin=%d,%d tfd=%d", nfds, chanfdout[0], chanfdout[1], chanfdin[0], chanfdin[1], tfd);
+    for (int pass_ = 0; pass_ < 2; pass_++) {
+      fd_set *s = pass_ ? w : r; int any = 0;
+      n += snprintf(b + n, sizeof b - n, pass_ ? " wset=" : " rset=");
+      for (int fd = 0; s && fd < FD_SETSIZE && n + 16 < sizeof b; fd++) if (FD_ISSET(fd, s)) { n += snprintf(b + n, sizeof b - n, "%s%d", any ? "," : "", fd); any = 1; }
+      if (!any) b[n++] = '-';
+    }
+  }
   b[n++] = '\n';
   hbuf_add(&sim_trace, b, n);
 }
